@@ -5,6 +5,7 @@ package main
 import (
 	"fmt"
 	"go/ast"
+	"go/constant"
 	"go/token"
 	"go/types"
 	"strings"
@@ -992,4 +993,446 @@ func singleDefExpr(f *FuncInfo, v types.Object) ast.Expr {
 		}
 	}
 	return nil
+}
+
+func init() {
+	extend("C13", ruleDeleteRowByFullKey("C13.delete-row-by-full-key"))
+	extend("C12", ruleSubtreeByLocation("C12.subtree-by-location"))
+}
+
+// headerColumnsIn: the models.HeaderColumns.<X> columns mentioned inside n (lower-cased).
+func headerColumnsIn(n ast.Node) map[string]bool {
+	cols := map[string]bool{}
+	ast.Inspect(n, func(m ast.Node) bool {
+		if s2, ok := m.(*ast.SelectorExpr); ok {
+			if s1, ok := ast.Unparen(s2.X).(*ast.SelectorExpr); ok && s1.Sel.Name == "HeaderColumns" {
+				cols[strings.ToLower(s2.Sel.Name)] = true
+			}
+		}
+		return true
+	})
+	return cols
+}
+
+// ruleDeleteRowByFullKey: rows are keyed by (name, linkname), and the row of a symbolic link carries the name of its
+// TARGET (the link's own path is in linkname). A delete record therefore names two rows whenever a link and its target
+// both exist; DeleteHeader has to pick the row by the full key. Selecting by name alone tombstones whichever row the
+// database returns first - removing a link removes the file it points to and leaves the link.
+func ruleDeleteRowByFullKey(rule string) func(*Ctx) {
+	return func(c *Ctx) {
+		c.floor(rule, 1, "row lookup in MetadataPersister.DeleteHeader")
+		f := c.fn("pkg/persisters", "(*MetadataPersister).DeleteHeader")
+		if f == nil {
+			return
+		}
+		info := f.Pkg.TypesInfo
+		pk := c.primaryKeyColumns()
+		n := 0
+		for _, cs := range f.calls {
+			fn, ok := cs.Callee.(*types.Func)
+			if !ok || fn.Pkg() == nil || fn.Pkg().Path() != modelsPath || (fn.Name() != "One" && fn.Name() != "All" && fn.Name() != "UpdateAll") {
+				continue
+			}
+			n++
+			cols := headerColumnsIn(cs.Call)
+			full := len(pk) > 0
+			var missing []string
+			for _, k := range pk {
+				if !cols[k] {
+					full = false
+					missing = append(missing, k)
+				}
+			}
+			_ = info
+			c.verdictIf(full, rule, f, fmt.Sprintf("lookup#%d", n), cs.Call.Pos(), "the row to tombstone is selected by its full primary key",
+				"DeleteHeader selects the row to tombstone without constraining "+strings.Join(missing, ", ")+" (the key is "+strings.Join(pk, ", ")+"): the row of a symbolic link is stored under its target's name, so the record that removes a link matches the target's row as well and the target is tombstoned instead (Remove(link) deletes the file and leaves the link)")
+		}
+		if n == 0 {
+			c.unresolved("no row lookup found in MetadataPersister.DeleteHeader")
+		}
+	}
+}
+
+// ruleSubtreeByLocation: the rows beneath a directory are selected by where they ARE. A link's row is stored under
+// its target's name, so a selection on the name column alone also returns links that live elsewhere and merely point
+// into the subtree (and misses links inside it that point out): RemoveAll of a directory tombstones links outside it.
+func ruleSubtreeByLocation(rule string) func(*Ctx) {
+	return func(c *Ctx) {
+		c.floor(rule, 1, "descendant selection in MetadataPersister.GetHeaderChildren")
+		f := c.fn("pkg/persisters", "(*MetadataPersister).GetHeaderChildren")
+		if f == nil {
+			return
+		}
+		n := 0
+		for _, cs := range f.calls {
+			fn, ok := cs.Callee.(*types.Func)
+			if !ok || fn.Pkg() == nil || fn.Pkg().Path() != modelsPath || (fn.Name() != "All" && fn.Name() != "One") {
+				continue
+			}
+			n++
+			cols := headerColumnsIn(cs.Call)
+			// a later filter on the rows' Linkname in the function body counts as well
+			filtered := cols["linkname"]
+			walkOwn(f.Body(), func(nd ast.Node) {
+				if se, ok := nd.(*ast.SelectorExpr); ok && se.Sel.Name == "Linkname" {
+					filtered = true
+				}
+			})
+			c.verdictIf(filtered, rule, f, fmt.Sprintf("selection#%d", n), cs.Call.Pos(), "descendants are selected by their own location",
+				"the descendants of a directory are selected by the name column alone: the row of a symbolic link carries its TARGET's name, so a link that lives outside the directory but points into it is returned as a descendant - RemoveAll(dir) tombstones it - while links inside the directory that point elsewhere are not")
+		}
+		if n == 0 {
+			c.unresolved("no descendant query found in MetadataPersister.GetHeaderChildren")
+		}
+	}
+}
+
+func init() {
+	extend("C08", ruleWriteBufferAdoptedAfterLoad("C08.write-buffer-adopted-after-load"))
+	extend("C03", ruleEmptyContentSkipsVerify("C03.empty-content-skips-verify"))
+	extend("C05", ruleUpdateEntryLookup("C05.update-entry-lookup"))
+	extend("C04", ruleUpdateEntryLookup("C04.update-entry-lookup"))
+	extend("C02", ruleUpdateEntryLookup("C02.update-entry-lookup"))
+	extend("C14", ruleErrorCountsAreZero("C14.error-counts-are-zero"))
+	extend("C10", ruleErrorCountsAreZero("C10.error-counts-are-zero"))
+}
+
+// ruleWriteBufferAdoptedAfterLoad: a handle enters write mode by loading the entry's current content - through the
+// verifying restore - into a fresh buffer. If the handle already holds that buffer (File.writeBuf) when the load
+// fails, the failed Write leaves it holding bytes that did not verify: Read serves them and Close writes them back
+// under a fresh signature. On every exit behind the failure edge of the load, the handle must not hold the buffer.
+func ruleWriteBufferAdoptedAfterLoad(rule string) func(*Ctx) {
+	return func(c *Ctx) {
+		c.floor(rule, 1, "verifying loads into a write buffer in pkg/fs")
+		wb := c.field("pkg/fs", "File", "writeBuf")
+		restore := c.fn("pkg/operations", "(*Operations).Restore")
+		f := c.fn("pkg/fs", "(*File).enterWriteMode")
+		if wb == nil || restore == nil || f == nil {
+			return
+		}
+		info := f.Pkg.TypesInfo
+		fl := c.flow(f)
+		n := 0
+		for _, cs := range f.calls {
+			if cs.Target != restore {
+				continue
+			}
+			n++
+			const adopted, failed = 1, 2
+			an := &Analysis{Must: false, Entry: 0,
+				Node: func(nd ast.Node, s State) State {
+					if as, ok := nd.(*ast.AssignStmt); ok {
+						for i, l := range as.Lhs {
+							if selField(info, l) != wb {
+								continue
+							}
+							if len(as.Lhs) == len(as.Rhs) && isNilIdent(info, as.Rhs[i]) {
+								s &^= adopted
+							} else {
+								s |= adopted
+							}
+						}
+					}
+					return s
+				},
+				Edge: func(b *cfg.Block, i int, s State) State {
+					for _, ft := range fl.edgeFacts(b, i) {
+						be, ok := ast.Unparen(ft.E).(*ast.BinaryExpr)
+						if !ok || !(isNilIdent(info, be.Y) || isNilIdent(info, be.X)) {
+							continue
+						}
+						if !(be.Op == token.NEQ && ft.Pos || be.Op == token.EQL && !ft.Pos) {
+							continue
+						}
+						for _, nd := range fl.condNodes(b) {
+							if as, ok := nd.(*ast.AssignStmt); ok && len(as.Rhs) == 1 && ast.Unparen(as.Rhs[0]) == ast.Expr(cs.Call) {
+								return s | failed
+							}
+						}
+					}
+					return s
+				}}
+			fl.solve(an)
+			bad := token.NoPos
+			fl.exits(an, func(ret *ast.ReturnStmt, ord int, s State) {
+				if s&failed != 0 && s&adopted != 0 && ret != nil && bad == token.NoPos {
+					bad = ret.Pos()
+				}
+			})
+			p := cs.Call.Pos()
+			if bad != token.NoPos {
+				p = bad
+			}
+			c.verdictIf(bad == token.NoPos, rule, f, fmt.Sprintf("Restore#%d into the write buffer", n), p, "when the load fails the handle does not hold the buffer",
+				"when loading the existing content fails (its signature does not verify) the handle already holds the write buffer with what was loaded: a later Read on the handle serves the unverified bytes, and Close writes them back under a fresh signature")
+		}
+		if n == 0 {
+			c.unresolved("File.enterWriteMode no longer loads the existing content through Operations.Restore")
+		}
+	}
+}
+
+// ruleEmptyContentSkipsVerify: writer and reader agree on when a content signature exists. The writers run the
+// sign/compress/encrypt chain only for entries WITH content, so a record of an empty file has no content signature;
+// the reader must not demand one. Every path to signature.Verify in recovery.Fetch crosses an edge on which the
+// (verified) header is known to announce content.
+func ruleEmptyContentSkipsVerify(rule string) func(*Ctx) {
+	return func(c *Ctx) {
+		c.floor(rule, 1, "signature.Verify call in recovery.Fetch")
+		f := c.fn("pkg/recovery", "Fetch")
+		verify := c.fn("pkg/signature", "Verify")
+		sizeF := c.extField("archive/tar", "Header", "Size")
+		if f == nil || verify == nil || sizeF == nil {
+			return
+		}
+		info := f.Pkg.TypesInfo
+		fl := c.flow(f)
+		n := 0
+		for _, cs := range f.calls {
+			if cs.Target != verify {
+				continue
+			}
+			n++
+			okk, reach := fl.guardedBy(cs.Call, func(ft Fact) bool {
+				// a contradiction with the later "is regular" test: the path cannot reach the verifier
+				if call, ok := ast.Unparen(ft.E).(*ast.CallExpr); ok && isMethod(calleeObj(info, call), "io/fs", "FileMode", "IsRegular") && !ft.Pos {
+					return true
+				}
+				be, ok := ast.Unparen(ft.E).(*ast.BinaryExpr)
+				if !ok {
+					return false
+				}
+				var other ast.Expr
+				op := be.Op
+				if selField(info, be.X) == sizeF {
+					other = be.Y
+				} else if selField(info, be.Y) == sizeF {
+					other = be.X
+					switch op { // mirror
+					case token.LSS:
+						op = token.GTR
+					case token.GTR:
+						op = token.LSS
+					case token.LEQ:
+						op = token.GEQ
+					case token.GEQ:
+						op = token.LEQ
+					}
+				}
+				if other == nil {
+					return false
+				}
+				tv, ok := info.Types[other]
+				if !ok || tv.Value == nil || tv.Value.String() != "0" {
+					return false
+				}
+				switch op {
+				case token.EQL, token.LEQ:
+					return !ft.Pos
+				case token.NEQ, token.GTR:
+					return ft.Pos
+				}
+				return false
+			}, nil)
+			if !reach {
+				continue
+			}
+			c.verdictIf(okk, rule, f, fmt.Sprintf("Verify#%d", n), cs.Call.Pos(), "content is verified only when the header announces content",
+				"recovery.Fetch demands a content signature also for an entry whose header announces no content: the writers store nothing - and no content signature - for an empty file, so with signatures on every empty file fails to read or restore with 'signature invalid'")
+		}
+		if n == 0 {
+			c.unresolved("recovery.Fetch no longer calls signature.Verify")
+		}
+	}
+}
+
+// ruleUpdateEntryLookup: like Delete and Move, Update appends a record only for an entry that the index knows. A
+// record for an unknown name is accepted on replay but changes no row, so the index keeps reporting the record BEFORE
+// it as the end of the tape; the next operation replays the stray record along with its own and fails, and so does
+// every operation after it.
+func ruleUpdateEntryLookup(rule string) func(*Ctx) {
+	return func(c *Ctx) {
+		c.floor(rule, 1, "WriteHeader sites in Operations.Update")
+		getHeader := c.ifaceMethod("pkg/config", "MetadataPersister", "GetHeader")
+		byLink := c.ifaceMethod("pkg/config", "MetadataPersister", "GetHeaderByLinkname")
+		if getHeader == nil || byLink == nil {
+			return
+		}
+		n := 0
+		for _, ws := range writeHeaderSites(c) {
+			f, info := ws.f, ws.f.Pkg.TypesInfo
+			if f.Name != "(*Operations).Update" {
+				continue
+			}
+			n++
+			src := paramVar(f, "getSrc")
+			fl := c.flow(f)
+			okk, _ := c.successDominates(fl, ws.cs.Call, func(call *ast.CallExpr) bool {
+				o := calleeObj(info, call)
+				return o == types.Object(getHeader) || o == types.Object(byLink)
+			}, func(nd ast.Node) bool {
+				// a new member starts: what was looked up for the previous one does not count
+				for _, call := range callsIn(nd) {
+					if src != nil && calleeObj(info, call) == types.Object(src) {
+						return true
+					}
+				}
+				return false
+			})
+			c.verdictIf(okk, rule, f, fmt.Sprintf("WriteHeader#%d after entry lookup", ws.ord), ws.cs.Call.Pos(), "nothing is written unless the entry is in the index",
+				"Update can append a record for a name the index does not know (e.g. written through a handle whose entry was renamed away): the record matches no row, the index keeps the record before it as the end of the tape, and every later operation fails with 'tar header missing'")
+		}
+		if n == 0 {
+			c.unresolved("no WriteHeader site found in Operations.Update")
+		}
+	}
+}
+
+// ruleErrorCountsAreZero: the byte counts and offsets a handle reports are those of the reference file, also when the
+// call fails: 0 together with the error. A negative count breaks the io.Reader/io.Writer contract (0 <= n <= len(p));
+// io.ReadAll slices its buffer by the count and panics on -1, so a failing read crashes the caller.
+func ruleErrorCountsAreZero(rule string) func(*Ctx) {
+	return func(c *Ctx) {
+		c.floor(rule, 15, "error returns of the counting methods of fs.File")
+		n := 0
+		for _, f := range c.Funcs {
+			if f.RelPkg() != "pkg/fs" || f.Decl == nil || f.Decl.Recv == nil || !strings.HasPrefix(f.Name, "(*File).") {
+				continue
+			}
+			res := f.Decl.Type.Results
+			if res == nil || res.NumFields() != 2 {
+				continue
+			}
+			info := f.Pkg.TypesInfo
+			sig := f.Obj.Type().(*types.Signature)
+			b, ok := sig.Results().At(0).Type().Underlying().(*types.Basic)
+			if !ok || b.Info()&types.IsInteger == 0 || !types.Identical(sig.Results().At(1).Type(), types.Universe.Lookup("error").Type()) {
+				continue
+			}
+			for i, ret := range returnsIn(f) {
+				if len(ret.Results) != 2 || isNilIdent(info, ret.Results[1]) {
+					continue
+				}
+				tv, ok := info.Types[ret.Results[0]]
+				if !ok || tv.Value == nil {
+					continue // a computed count (bytes actually transferred before the error)
+				}
+				n++
+				neg := constant.Sign(tv.Value) < 0
+				c.verdictIf(!neg, rule, f, fmt.Sprintf("return#%d", i+1), ret.Pos(), "a failing call reports a count of zero",
+					"a failing call reports the count "+tv.Value.String()+": io.Reader/io.Writer require 0 <= n <= len(p); io.ReadAll (afero.ReadFile) slices its buffer by the count and panics, so an ordinary error (permission, failed verification) crashes the caller instead of being reported")
+			}
+		}
+	}
+}
+
+func init() {
+	extend("C10", ruleTransactionBracket("C10.transaction-bracket"))
+}
+
+// ruleTransactionBracket: the index database is opened with a single connection. A transaction that is begun and then
+// left open on some exit (an early error return without Rollback) pins that connection: the call itself returns, the
+// next call into the index blocks forever while holding the filesystem lock and the drive.
+func ruleTransactionBracket(rule string) func(*Ctx) {
+	return func(c *Ctx) {
+		c.floor(rule, 1, "exits behind a database transaction begin in the library (none on the pinned tree; matcher verified on a fixture)")
+		isBegin := func(o types.Object) bool {
+			return isMethod(o, "database/sql", "DB", "BeginTx") || isMethod(o, "database/sql", "DB", "Begin") || isMethod(o, "database/sql", "Conn", "BeginTx")
+		}
+		isEnd := func(o types.Object) bool {
+			return isMethod(o, "database/sql", "Tx", "Commit") || isMethod(o, "database/sql", "Tx", "Rollback")
+		}
+		scan := func(cc *Ctx, report func(f *FuncInfo, ret *ast.ReturnStmt, ord int, open bool)) int {
+			n := 0
+			for _, f := range cc.Funcs {
+				if cc == c && !strings.HasPrefix(f.RelPkg(), "pkg/") && !strings.HasPrefix(f.RelPkg(), "internal/") {
+					continue
+				}
+				begins := false
+				for _, cs := range f.calls {
+					if isBegin(cs.Callee) {
+						begins = true
+					}
+				}
+				if !begins {
+					continue
+				}
+				info := f.Pkg.TypesInfo
+				fl := cc.flow(f)
+				const open, deferred = 1, 2
+				an := &Analysis{Must: false, Entry: 0,
+					Node: func(nd ast.Node, s State) State {
+						if d, ok := nd.(*ast.DeferStmt); ok {
+							ends := isEnd(calleeObj(info, d.Call))
+							if lit, ok := d.Call.Fun.(*ast.FuncLit); ok {
+								for _, call := range callsIn(lit.Body) {
+									if isEnd(calleeObj(info, call)) {
+										ends = true
+									}
+								}
+							}
+							if ends {
+								return s | deferred
+							}
+							return s
+						}
+						for _, call := range callsIn(nd) {
+							o := calleeObj(info, call)
+							if isBegin(o) {
+								s |= open
+							}
+							if isEnd(o) {
+								s &^= open
+							}
+						}
+						return s
+					},
+					Edge: func(b *cfg.Block, i int, s State) State {
+						// on the failure edge of the begin itself no transaction exists
+						for _, ft := range fl.edgeFacts(b, i) {
+							be, ok := ast.Unparen(ft.E).(*ast.BinaryExpr)
+							if !ok || !(isNilIdent(info, be.Y) || isNilIdent(info, be.X)) {
+								continue
+							}
+							if !(be.Op == token.NEQ && ft.Pos || be.Op == token.EQL && !ft.Pos) {
+								continue
+							}
+							for _, nd := range fl.condNodes(b) {
+								if as, ok := nd.(*ast.AssignStmt); ok && len(as.Rhs) == 1 {
+									if call, ok := ast.Unparen(as.Rhs[0]).(*ast.CallExpr); ok && isBegin(calleeObj(info, call)) {
+										return s &^ open
+									}
+								}
+							}
+						}
+						return s
+					}}
+				fl.solve(an)
+				fl.exits(an, func(ret *ast.ReturnStmt, ord int, s State) {
+					n++
+					report(f, ret, ord, s&open != 0 && s&deferred == 0)
+				})
+			}
+			return n
+		}
+		n := scan(c, func(f *FuncInfo, ret *ast.ReturnStmt, ord int, open bool) {
+			p := f.Pos()
+			if ret != nil {
+				p = ret.Pos()
+			}
+			c.verdictIf(!open, rule, f, fmt.Sprintf("return#%d", ord), p, "no transaction is left open at this exit",
+				"this exit can be reached with a database transaction begun and neither committed nor rolled back: the index database has a single connection, so the next call into the index blocks forever (holding the filesystem lock and the drive)")
+		})
+		if n == 0 {
+			fc, err := fixtureCtx("pkg/fixture", "package fixture\nimport (\n\t\"context\"\n\t\"database/sql\"\n)\nfunc f(db *sql.DB, q string) error {\n\ttx, err := db.BeginTx(context.Background(), nil)\n\tif err != nil {\n\t\treturn err\n\t}\n\tif _, err := tx.Exec(q); err != nil {\n\t\treturn err\n\t}\n\treturn tx.Commit()\n}\n")
+			alive := false
+			if err == nil {
+				scan(fc, func(f *FuncInfo, ret *ast.ReturnStmt, ord int, open bool) { alive = alive || open })
+			}
+			if !alive {
+				c.unresolved("transaction-bracket matcher failed its positive control")
+			}
+			c.ok(rule, nil, "no transactions", token.NoPos, false, "the library begins no database transaction (matcher verified on an embedded fixture)")
+		}
+	}
 }
